@@ -194,5 +194,36 @@ theorem sound2_ofPV {pv : PartialValue} {v : Value} (h : AttrCompletes σ es pv 
 
 end
 
+/-! ### building the relations for explicit stores -/
+
+section
+variable {σ : Mapper} {es : Entities}
+
+theorem attrsComplete_nil : AttrsComplete σ es [] [] := by intro a; simp [lookupKV]
+
+theorem attrsComplete_cons (k : String) {pv : PartialValue} {v : Value} (h : AttrCompletes σ es pv v)
+    {pkvs : List (String × PartialValue)} {kvs : List (String × Value)} (hr : AttrsComplete σ es pkvs kvs) :
+    AttrsComplete σ es ((k, pv) :: pkvs) ((k, v) :: kvs) := by
+  intro a
+  simp only [lookupKV]
+  by_cases hk : (k == a) = true
+  · simp only [hk, if_true]; exact ⟨v, rfl, h⟩
+  · simp only [hk, Bool.false_eq_true, if_false]; exact hr a
+
+/-- a one-entity store (concrete mode) -/
+theorem storeCompletes_single (u : EntityUID) (d : PEntityData) (d' : EntityData) (hanc : d'.ancestors = d.ancestors)
+    (ha : AttrsComplete σ [(u, d')] d.attrs d'.attrs) (ht : AttrsComplete σ [(u, d')] d.tags d'.tags) :
+    StoreCompletes σ ⟨[(u, d)], false⟩ [(u, d')] := by
+  intro w
+  simp only [PEntities.find?, Entities.find?]
+  by_cases hk : (u == w) = true
+  · simp only [hk, if_true]; exact ⟨d', rfl, hanc, ha, ht⟩
+  · simp [hk]
+
+theorem storeCompletes_ofConcrete_nil (σ : Mapper) : StoreCompletes σ (.ofConcrete []) [] := by
+  intro w; simp [PEntities.ofConcrete, PEntities.find?, Entities.find?]
+
+end
+
 end PS
 end Cedar
